@@ -17,6 +17,10 @@ Structural clauses decided (each a necessary condition of the property):
     `decode_lzw_with_limit` is dominated by an ordered comparison of that variable with 12 (`< 12`, `>= 12`, `<= 11`, ..). A
     width that can reach 13 desynchronises the decoder from a conforming encoder once the table is full (≈ 4 KB of
     incompressible data).
+ R7 no character is consumed and dropped: in the ASCII85 decoder a look-ahead `next()` whose value is only compared with a literal
+    (`chars.next() == Some(&b'~')`) has consumed a character; on the branch where the comparison fails the decoder must stop
+    (error / end of data) and not go on decoding — otherwise a data character is silently lost (`<` is a valid ASCII85 digit, so a
+    stream whose encoding starts with `<` loses its second character).
 Not decided: equality of decoded bytes with a reference decoder.
 """
 from .. import lib as L
@@ -295,6 +299,7 @@ def r5(ctx):
 
 def run(ctx):
     r6_lzw_width_cap(ctx)
+    r7_lookahead_not_dropped(ctx)
     for r in (r1, r2, r3, r4, r5):
         try:
             r(ctx)
@@ -347,3 +352,61 @@ def r6_lzw_width_cap(ctx):
                           "4095/4096 entries the decoder widens its codes to 13 bits while a conforming encoder stays at 12 and emits "
                           "its Clear code at 12 bits, so every stream with more than about 4 KB of poorly compressible data fails to "
                           "decode", fn.where(b))
+
+
+def r7_lookahead_not_dropped(ctx):
+    fn = ctx.fn(F + "decode_ascii85_with_limit", "R7")
+    g = CF.cfg(fn)
+    fl = FL.flow(fn)
+    loops = g.loops()
+    main = None
+    for h, body in loops.items():
+        if main is None or len(body) > len(loops[main]):
+            main = h
+    if main is None:
+        ctx.undecided_site("R7", "decode_ascii85:lookahead", "no decoding loop found", fn.where())
+        return
+    n = 0
+    nexts = [(b, d) for b, c, a, d in L.calls_to(fn, ["Iterator::next"]) if d]
+    for b, d in nexts:
+        # is the value only compared? find eq/ne calls fed (only) by this next() result
+        cmps = []
+        for cb, cc, ca, cd in L.calls_to(fn, ["PartialEq::eq", "PartialEq::ne"]):
+            for x in ca:
+                seen, drecs = fl.back_slice(FL.op_locals(x))
+                if d[0] in seen and not any(dd[0] == "call" and dd[1] != b and L.is_call_to(fn.term(dd[1])[1], ["Iterator::next"]) for dd in drecs):
+                    cmps.append((cb, cc, cd))
+        other_uses = [u for u in fl.uses.get(d[0], ()) if not (u[0] == "stmt" and fn.blocks[u[1]][0][u[2]][2][0] in ("ref",))]
+        if not cmps:
+            continue
+        # value used anywhere else than through the comparison's reference?
+        used_elsewhere = False
+        fw = fl.fwd_slice([d[0]])
+        for cb, cc, cd in cmps:
+            pass
+        for l in fw:
+            for u in fl.uses.get(l, ()):
+                if u[0] == "term" and fn.term(u[1])[0] == "call" and not L.is_call_to(fn.term(u[1])[1], ["PartialEq::eq", "PartialEq::ne"]) and u[1] != b:
+                    used_elsewhere = True
+                if u[0] == "term" and fn.term(u[1])[0] == "sw" and not any(u[1] == cb or g.dominates(cb, u[1]) for cb, cc, cd in cmps):
+                    used_elsewhere = True
+        if used_elsewhere:
+            continue
+        n += 1
+        cb, cc, cd = cmps[0]
+        te, fe = L.bool_edges(fn, cd[0])
+        miss = fe if L.short(cc["p"]) == "eq" else te
+        key = "decode_ascii85:lookahead#%d:mismatch-stops" % n
+        bad = None
+        for s_, t_ in miss:
+            reach = g.reachable_from(t_)
+            if main in reach or t_ == main:
+                bad = (s_, t_)
+        if bad:
+            ctx.violation("R7", key, "the character consumed by the look-ahead `next()` at %s is only compared with a literal; when the "
+                          "comparison fails the decoder goes on into its decoding loop without that character: an ASCII85 stream whose "
+                          "first character is `<` (a valid digit) loses its second character and decodes to different bytes"
+                          % fn.where(b), fn.where(cb))
+        else:
+            ctx.ok("R7", key, "on a mismatch the decoder stops (error / end) instead of continuing without the consumed character", fn.where(cb))
+    ctx.floor("R7", "compare-only look-aheads in the ASCII85 decoder", n, 1)
